@@ -1,6 +1,6 @@
 """Polynomial normal forms over NON-NEGATIVE integer unknowns, with sign decision by coefficient inspection.
 
-Used for symbolic case analysis of integer arithmetic taken from a syntax tree (part sizes, offsets, byte counters):
+Used for the finite case analysis of integer arithmetic taken from a syntax tree (part sizes, offsets, byte counters):
 a case such as "rem > 0 and part_size > rem" is expressed by *substitution* with slack unknowns that range over the
 naturals (rem = 1 + r, part_size = rem + 1 + s), never by side conditions.  Then
 
